@@ -456,6 +456,18 @@ let () =
        | ["wfm"; o; nw; ms] ->
            let b = wf_matches (bytes_of_ostring (blob_tok o)) (bytes_of_ostring (blob_tok nw)) (parse_matches ms) in
            print_endline (if b then "wfm=true" else "wfm=false")
+       | ["bsdiff"; o; nw; tbl] ->
+           (* the model's scan loop with the real matcher's answers as the oracle table *)
+           let t = Array.of_list (if tbl = "-" then [] else List.map (fun m -> match split '.' m with
+               | [a; b] -> (n_of_decimal a, n_of_decimal b) | _ -> failwith "bad lsm") (split ',' tbl)) in
+           let lsm (sc : n) = let i = int_of_string (decimal_of_n sc) in
+             if i < Array.length t then t.(i) else (incr oracle_miss; (N0, N0)) in
+           (match bsdiff (bytes_of_ostring (blob_tok o)) (bytes_of_ostring (blob_tok nw)) lsm with
+            | Ok ms -> print_endline ("bsdiff=" ^ (if ms = [] then "-" else Stdlib.String.concat "," (List.map (fun m ->
+                Printf.sprintf "%s.%s.%s.%s" (decimal_of_n m.add_old_start) (decimal_of_n m.add_new_start)
+                  (decimal_of_n m.add_length) (decimal_of_n m.copy_end)) ms)))
+            | Underflow -> print_endline "bsdiff=underflow"
+            | OutOfFuel -> print_endline "bsdiff=outoffuel")
        | ["sdiff"; o; nw; ms] ->
            let p = simple_diff (bytes_of_ostring (blob_tok o)) (bytes_of_ostring (blob_tok nw)) (parse_matches ms) in
            let s = ostring_of_bytes p in
